@@ -48,4 +48,15 @@ theorem reach_run {cfg : Cfg} (tr : List (Nat × Label)) (s0 s : State) (h0 : Re
     · simp at h
     · rename_i s1 hs1; exact ih s1 (Reach.step h0 hs1) h
 
+theorem run_append (cfg : Cfg) (s : State) (a b : List (Nat × Label)) :
+    run cfg s (a ++ b) = (run cfg s a).bind (fun s' => run cfg s' b) := by
+  induction a generalizing s with
+  | nil => simp [run]
+  | cons x rest ih =>
+    obtain ⟨t, l⟩ := x
+    simp only [List.cons_append, run]
+    cases step cfg s t l with
+    | none => simp
+    | some s1 => simp [ih]
+
 end Fv.Chan.ChainB
